@@ -425,9 +425,27 @@ func perturbations(c blockCfg, base *types.Block) []pert {
 
 	// -- header: every field (bloom is not transmitted and not hashed: see the assumptions)
 	l.add("header", "header.ChainID", "header.ChainID:append", false, func(b *types.Block) bool { H(b).ChainID += "x"; return true })
-	l.add("header", "header.ChainID", "header.ChainID:truncate", false, func(b *types.Block) bool { H(b).ChainID = H(b).ChainID[:len(H(b).ChainID)-1]; return true })
-	l.add("header", "header.ChainID", "header.ChainID:empty", false, func(b *types.Block) bool { H(b).ChainID = ""; return true })
-	l.add("header", "header.ChainID", "header.ChainID:case", false, func(b *types.Block) bool { H(b).ChainID = "C" + H(b).ChainID[1:]; return true })
+	l.add("header", "header.ChainID", "header.ChainID:truncate", false, func(b *types.Block) bool {
+		if len(H(b).ChainID) == 0 {
+			return false
+		}
+		H(b).ChainID = H(b).ChainID[:len(H(b).ChainID)-1]
+		return true
+	})
+	l.add("header", "header.ChainID", "header.ChainID:empty", false, func(b *types.Block) bool {
+		if len(H(b).ChainID) == 0 {
+			return false
+		}
+		H(b).ChainID = ""
+		return true
+	})
+	l.add("header", "header.ChainID", "header.ChainID:case", false, func(b *types.Block) bool {
+		if len(H(b).ChainID) == 0 || H(b).ChainID[0] != 'c' {
+			return false
+		}
+		H(b).ChainID = "C" + H(b).ChainID[1:]
+		return true
+	})
 	for _, f := range []struct {
 		n string
 		g func(h *types.Header) *uint64
